@@ -244,7 +244,14 @@ def case_chain(rng: Any, ctx: Ctx, index: int) -> None:
     """A chain with a block pair that cannot be paired block by block followed by a pair of the same classes that can."""
     from .. import patterns
     from .c07 import residue
-    if rng.integers(4) == 0:
+    if rng.integers(6) == 0:
+        # a legal product whose two sides do NOT use the same container layout (the row block takes a pytree that the column
+        # produces through a deeper nesting): reduce() must leave it alone or simplify it correctly, never refuse it
+        s1 = gen.S((int(rng.integers(2, 4)),), gen.case_dtype(rng))
+        x_, y_, b1, b2 = (gen.a_dense(rng, s1) for _ in range(4))
+        inner_row = BlockRowOperator([x_, y_])                       # [s1, s1] -> s1
+        tag, ops = 'blocks/row@col-different-nesting', [BlockRowOperator({'a': inner_row}), BlockColumnOperator({'a': [b1, b2]})]
+    elif rng.integers(4) == 0:
         # row times column whose block products are scalars / identities: the sum of several scalar terms
         from furax._base.core import HomothetyOperator, IdentityOperator
         s0 = gen.S((int(rng.integers(1, 4)),), gen.case_dtype(rng))
@@ -271,7 +278,13 @@ def case_chain(rng: Any, ctx: Ctx, index: int) -> None:
     def j() -> None:
         from furax._base.core import CompositionOperator
         e = CompositionOperator(list(ops))
-        r = e.reduce()
+        try:
+            r = e.reduce()
+        except Exception as exc:  # noqa: BLE001
+            LOG.evaluated('C10.products')
+            LOG.violation('C10', 'C10.products', f'{tag}/reduce-raises-{type(exc).__name__}', f'a legal product of block operators cannot be reduced: {str(exc)[:120]}',
+                          before=[dense.skeleton(o) for o in ops])
+            return
         LOG.evaluated('C10.products')
         LOG.count('C10.products', tag)
         rops = list(r.operands) if isinstance(r, CompositionOperator) else [r]
